@@ -43,6 +43,8 @@ MANIFEST = {
 
 
 def run(ctx):
+    from rules.common import require_fields
+    require_fields(ctx.program, 'cacheutils.LRI', ['_anchor', '_link_lookup', 'hit_count', 'miss_count', 'soft_miss_count', 'max_size', 'on_miss'])
     for cls in ('cacheutils.LRI', 'cacheutils.LRU'):
         cachestep.check_class(ctx, cls)
     # T28: the unlink statements of the recency ring are well-formed (own methods and private module-level helpers)
